@@ -24,6 +24,8 @@ RULE = (
     "Oracles: (i) NumPy-convention rule table (sum/prod -> default-integer promotion, mean/var/std -> floating, min/max/first/last -> input "
     "dtype, count/arg* -> intp, any/all -> bool, explicit dtype= wins, then widened by np.result_type(.., fill_value)); (ii) one dtype and "
     "shape per cell across all plans; (iii) announced dtype/shape/chunks/meta type == computed, block by block. "
+    "Geometry leg: (2,2,3) array with 2-D labels x every spelling of axis (order, sign) x chunk grids x methods x 1-2 groupers x numpy/dask labels: "
+    "announced shape/chunks/dtype/meta == computed array == every computed block == eager geometry. "
     "Non-trivial = a cell where the result dtype differs from the input dtype, or a fill_value is requested."
 )
 ASSUMPTIONS = [
@@ -221,13 +223,14 @@ def run_cell(res, in_dtype, func, user_dtype, fillname, min_count, engine, metho
     import dask.array as da
 
     V = make_values(in_dtype)
-    fill = {"none": None, "zero": 0, "nan": NAN}[fillname]
+    fill = {"none": None, "zero": 0, "nan": NAN, "nan-noexp": NAN}[fillname]
     kw = dict(func=func, engine=engine)
     if user_dtype is not None:
         kw["dtype"] = user_dtype
     if fill is not None:
         kw["fill_value"] = fill
-        kw["expected_groups"] = EXPECTED
+        if not fillname.endswith("-noexp"):  # "-noexp": a fill_value although every label occurs: the dtype is widened all the same
+            kw["expected_groups"] = EXPECTED
     if min_count is not None:
         kw["min_count"] = min_count
     if func == "nanquantile":
@@ -316,7 +319,7 @@ def run_shard(shard):
         return res_with_sample(res, shard)
     strategies = STRATEGIES_QUICK if tier == "quick" else STRATEGIES_ALL
     seen = {}
-    for user_dtype, fillname, min_count in itertools.product(b["user_dtypes"], ("none", "zero", "nan"), b["min_counts"]):
+    for user_dtype, fillname, min_count in itertools.product(b["user_dtypes"], ("none", "zero", "nan", "nan-noexp"), b["min_counts"]):
         for method, chunks in strategies:
             engines = ("numpy", "flox", "numbagg") if (method in ("eager", "map-reduce") and (chunks is None or len(chunks) == 2)) or tier != "quick" else ("numpy",)
             for engine in engines:
